@@ -897,7 +897,11 @@ func (w *vXSWorld) expected(keep func(vXSRep) bool) [][2]uint64 {
 	exp := map[string]uint64{}
 	var out [][2]uint64
 	for _, p := range reps {
-		if p.hidden || !keep(p) {
+		configured := false
+		for _, c := range w.chains {
+			configured = configured || c == p.chain
+		}
+		if p.hidden || !keep(p) || !configured {
 			continue
 		}
 		for s := p.lo; s <= p.hi; s++ {
@@ -1012,6 +1016,7 @@ func TestVerif_ExecSys(t *testing.T) {
 			fOf[2] = 1
 			noRead2 = map[int]bool{5: true, 6: true}
 		}
+		chainPeers := map[cciptypes.ChainSelector][]libocrtypes.PeerID{vXSDest: peers}
 		d.hc.SetChain(vXSDest, fOf[vXSDest], peers)
 		for _, c := range w.chains {
 			ps := peers
@@ -1023,7 +1028,67 @@ func TestVerif_ExecSys(t *testing.T) {
 					}
 				}
 			}
+			chainPeers[c] = ps
 			d.hc.SetChain(c, fOf[c], ps)
+		}
+		// the home chain configuration changes while the plugins live: f of a chain raised / lowered by one, a source
+		// chain added with its f, a source chain removed
+		setF := func(c cciptypes.ChainSelector, f int) {
+			fOf[c] = f
+			d.hc.SetChain(c, f, chainPeers[c])
+		}
+		added, removed := false, false
+		applyCfg := func(kind string, c cciptypes.ChainSelector) string {
+			switch kind {
+			case "raise":
+				if fOf[c] < 2 {
+					setF(c, fOf[c]+1)
+					return fmt.Sprintf("f(%d) raised to %d", c, fOf[c])
+				}
+			case "lower":
+				if fOf[c] > 1 {
+					setF(c, fOf[c]-1)
+					return fmt.Sprintf("f(%d) lowered to %d", c, fOf[c])
+				}
+			case "lower-all":
+				out := ""
+				for _, x := range append(append([]cciptypes.ChainSelector{}, w.chains...), vXSDest) {
+					if fOf[x] > 1 {
+						setF(x, fOf[x]-1)
+						out += fmt.Sprintf("f(%d) lowered to %d; ", x, fOf[x])
+					}
+				}
+				return out
+			case "add":
+				if !added && !removed && len(w.chains) < 3 {
+					added = true
+					nc := cciptypes.ChainSelector(len(w.chains) + 1)
+					w.chains = append(w.chains, nc)
+					w.next[nc] = uint64(hr.Range(1, 30))
+					w.cur.nonces[nc] = map[string]uint64{}
+					var nx [3]uint64
+					for k := range nx {
+						on := uint64(vPick(hr, []int{0, 3, 10})) + 7*uint64(nc)
+						w.cur.nonces[nc][w.senderStr[k]] = on
+						nx[k] = on + 1
+					}
+					w.nextNonce[nc] = &nx
+					chainPeers[nc] = peers
+					setF(nc, hr.Range(1, 2))
+					w.commit(nc, false) // the new lane has a committed report at once
+					return fmt.Sprintf("chain %d added with f = %d", nc, fOf[nc])
+				}
+			case "remove":
+				if !removed && !added && len(w.chains) >= 2 {
+					removed = true
+					rc := w.chains[len(w.chains)-1]
+					w.chains = w.chains[:len(w.chains)-1]
+					delete(fOf, rc)
+					delete(d.hc.Configs, rc)
+					return fmt.Sprintf("chain %d removed", rc)
+				}
+			}
+			return ""
 		}
 		codec := vXSCodec{base: hr.Range(0, 20)}
 		est := vXSEst{w: w, tga: uint64(hr.Range(0, 50)), tgb: uint64(hr.Range(0, 9))}
@@ -1069,8 +1134,20 @@ func TestVerif_ExecSys(t *testing.T) {
 					cls = "lag+echo"
 				}
 			}
+			if !poison && !split && cy > 0 {
+				anyHigh := false
+				for _, f := range fOf {
+					anyHigh = anyHigh || f > 1
+				}
+				switch {
+				case fOf[vXSDest] < 2 && hr.Chance(1, 6):
+					cls = "fraise" // f(dest) raised by one before the cycle; old f+1 oracles collude
+				case anyHigh && hr.Chance(1, 6):
+					cls = "flower" // every f of 2 lowered by one before the cycle; exactly new f+1 = 2 oracles take part
+				}
+			}
 			w.failExec = false
-			if cy > 0 && hr.Chance(1, 10) && !split {
+			if cy > 0 && hr.Chance(1, 10) && !split && cls != "fraise" && cls != "flower" {
 				cls = "readerr" // the destination reader fails for part of the executed-range queries, on every oracle
 				w.failExec = true
 			}
@@ -1096,6 +1173,39 @@ func TestVerif_ExecSys(t *testing.T) {
 			if poison {
 				nb = 2 // two faulty oracles of seven: within F = 2
 			}
+			// ---- the home chain configuration moves: before the cycle (position 0) or between its rounds ----
+			cfgKind, cfgAt, cfgChain, cfgNote := "", 0, vXSDest, ""
+			switch cls {
+			case "fraise":
+				nb = fOf[vXSDest] + 1 // exactly the OLD threshold
+				cfgKind, cfgAt, cfgChain = "raise", 0, vXSDest
+			case "flower":
+				nb = n - 2 // exactly the NEW threshold (1 + 1) takes part
+				cfgKind, cfgAt = "lower-all", 0
+				// the oracles that stay must read every chain
+				var rest []int
+				perm2 := perm[:0:0]
+				for _, i := range perm {
+					if noRead2[i] {
+						perm2 = append(perm2, i)
+					} else {
+						rest = append(rest, i)
+					}
+				}
+				perm = append(perm2, rest...)
+			default:
+				if !poison && !split && hr.Chance(1, 3) {
+					cfgKind = vPick(hr, []string{"raise", "raise", "lower", "lower", "add", "remove"})
+					cfgChain = vPick(hr, append(append([]cciptypes.ChainSelector{}, w.chains...), vXSDest))
+					if cfgKind == "raise" || cfgKind == "lower" {
+						cfgAt = hr.Intn(3)
+					}
+				}
+			}
+			if cfgKind != "" && cfgAt == 0 {
+				cfgNote = applyCfg(cfgKind, cfgChain)
+				cfgKind = ""
+			}
 			for k := 0; k < nb; k++ {
 				d.byz[perm[k]] = true
 			}
@@ -1113,7 +1223,21 @@ func TestVerif_ExecSys(t *testing.T) {
 				// the faulty oracle seconds the lagging reader in the GetCommitReports round and is honest afterwards
 				dev.shape = [3]string{"echo-lag", "none", "none"}
 			}
-			live := cls == "honest" || cls == "byz1" || cls == "lag" || cls == "readerr" || cls == "lag+echo"
+			if cls == "fraise" {
+				// the colluding oracles know a committed report the honest readers do not see: old f+1 votes, below the new f+1
+				dev.shape = [3]string{"hidden-commit", "none", "none"}
+				haveHidden := false
+				for _, p := range w.cur.reps {
+					haveHidden = haveHidden || (p.hidden && !w.cur.executed[vXSKey{p.chain, p.lo}])
+				}
+				if !haveHidden {
+					w.commit(pickChain(), true)
+				}
+			}
+			if cls == "flower" {
+				dev.shape = [3]string{"drop", "drop", "drop"}
+			}
+			live := cls == "honest" || cls == "byz1" || cls == "lag" || cls == "readerr" || cls == "lag+echo" || cls == "flower"
 			if poison {
 				dev.shape = [3]string{"poison", "none", "none"}
 				live = true // two faulty oracles of seven, F = 2, f(1) = f(dest) = 2, neither reads chain 2
@@ -1160,6 +1284,22 @@ func TestVerif_ExecSys(t *testing.T) {
 			if cls == "readerr" {
 				exp = nil // an unreadable chain: nothing is promised, but nothing executed may be reported either
 			}
+			// every chain must keep f+1 up-to-date honest observers, at the highest f it has during the cycle
+			for _, c := range append(append([]cciptypes.ChainSelector{}, w.chains...), vXSDest) {
+				fmax := fOf[c]
+				if cfgKind == "raise" && cfgChain == c && fmax < 2 {
+					fmax++
+				}
+				cnt := 0
+				for i := 0; i < n; i++ {
+					if !d.byz[i] && i != d.lag && !(c == 2 && noRead2[i]) {
+						cnt++
+					}
+				}
+				if cnt < fmax+1 {
+					live = false
+				}
+			}
 			executedAtStart := map[vXSKey]bool{}
 			for key, b := range w.cur.executed {
 				if b {
@@ -1192,6 +1332,10 @@ func TestVerif_ExecSys(t *testing.T) {
 				}
 				if steps > 0 && k == 0 {
 					break
+				}
+				if cfgKind != "" && k >= cfgAt {
+					cfgNote = fmt.Sprintf("before round %d: %s", k+1, applyCfg(cfgKind, cfgChain))
+					cfgKind = ""
 				}
 				rr := d.round(ctx, w, k, dev, nkeys, &nkeyList)
 				if rr.fail != "" {
@@ -1254,7 +1398,7 @@ func TestVerif_ExecSys(t *testing.T) {
 			}
 			sinks[emitted%4].Emit(fmt.Sprintf("ExecSys_cycle_%d", emitted%4), label, reached && nincl > 0, w.finish(cPair(cTup(cfg, prev0, cList(ins)), cList(outs))),
 				map[string]any{"history": h, "cycle": cy, "class": cls, "oracles": n, "F": F, "deviating": fmt.Sprint(d.byz), "lagging": d.lag,
-					"shapes": dev.shape, "rounds": showRounds, "expected": fmt.Sprint(exp), "included": nincl, "liveGroundTruth": live})
+					"shapes": dev.shape, "homeChainChange": cfgNote, "rounds": showRounds, "expected": fmt.Sprint(exp), "included": nincl, "liveGroundTruth": live})
 			emitted++
 			if stuck {
 				break // the DON does not leave this state any more: the history ends
